@@ -462,9 +462,11 @@ def State.updateTraceFlow (st : State F) (flowId : Nat) (round : Round) : R (Sta
   let flowTrace ← flowTrace.applyRound round
   .ok { st with flows := setFlow st.flows flowId flowTrace }
 
-/-- the `filter_map` of `update_from_round` -/
+/-- the `filter_map` of `update_from_round`: one position per probed hop (a probe that failed to send
+is an unknown hop, like an unanswered one; skipped and unused slots are no probes) -/
 def flowHop : Slot → Option (Option Nat)
   | .awaited _ => some none
+  | .failed _ => some none
   | .complete c => some (some c.host)
   | _ => none
 
